@@ -154,6 +154,7 @@ pub fn profile(r: &mut Rng, selected: u32) -> Profile {
     p.connect_pdu_len_style = if r.chance(1, 3) { 1 } else { 0 };
     p.sdi_flags = *r.pick(&[0x70u8, 0x70, 0x70, 0x30, 0xB0, 0xF0]);
     p.stream_id = *r.pick(&[1u8, 1, 2, 4, 0]);
+    p.license_sec_flags = *r.pick(&[0x0080u16, 0x0080, 0x0080, 0x0280, 0x8280, 0x8080]);
     p.early_caps = *r.pick(&[0u32, 1, 2, 4, 7]);
     p.sec_optional = r.chance(1, 3);
     p.ber_form = *r.pick(&[0u8, 0, 1, 2]);
